@@ -723,7 +723,54 @@ def rule_bookkeeping_names_verbatim(ctx):
     ctx.floor("C02.j bookkeeping writers", n, 2)
 
 
+def rule_fold_ignores_session(ctx):
+    """C02.k: a double-quoted identifier is reported exactly as written — in every session. The rewrite stage that folds
+    identifiers is run on a quoted identifier with every extra argument the pipeline hands it left unknown: no setting of those
+    arguments may make it change the quoted text (the property has no per-session exception)."""
+    from ..execmodel import ExecHooks
+    from ..interp import explore
+    from ..pipeline import stages
+
+    prog = ctx.prog
+    tm = prog.mod("transforms")
+    n_fold = 0
+
+    def ident(quoted):
+        return NodeV("Identifier", {"this": Sym("qName" if quoted else "uName", typ="str", truthy=True, distinct=True), "quoted": Const(quoted)},
+                     name="qid" if quoted else "uid", open=False)
+
+    def folded(v):
+        t = v.args.get("this") if isinstance(v, NodeV) else None
+        return isinstance(t, Sym) and t.origin and t.origin[0] in ("upper", "lower", "casefold")
+
+    for st in stages(prog):
+        if st.fn is None:
+            continue
+        extra = [a.arg for a in st.fn.args.args[1:]] + [a.arg for a in st.fn.args.kwonlyargs]
+        kw = {k: Sym(f"session:{k}") for k in (st.kwargs or {}) if k in extra}
+
+        def run(I, st=st, kw=kw, quoted=False):
+            return I.call(I.global_lookup("transforms", st.name), [ident(quoted)], dict(kw), None)
+
+        is_fold = any(p.outcome == "return" and folded(p.value) for p in explore(prog, lambda: ExecHooks(None), run, max_paths=16))
+        if not is_fold:
+            continue
+        n_fold += 1
+        bad = [p for p in explore(prog, lambda: ExecHooks(None), lambda I, st=st, kw=kw: run(I, st, kw, True), max_paths=32)
+               if p.outcome == "return" and folded(p.value)]
+        loc = tm.loc(st.fn)
+        ctx.ob("C02.k", f"{st.name}: a quoted identifier keeps its text whatever the session-dependent arguments {sorted(kw)} are", not bad, loc)
+        if bad:
+            why = [t for t, v in bad[0].assumed if "session:" in t]
+            ctx.violation("C02.k", "transforms", st.name, f"quoted identifier folded under a session setting {sorted(kw)}", loc,
+                          f"`{st.name}` changes the case of a double-quoted identifier on the path where {why[0] if why else 'a session-dependent argument'} "
+                          f"holds: what decides it comes from the connection ({', '.join(f'{k}=…' for k in kw)}), so in such a session quoted names are not "
+                          f"reported as written — and any value that merely *looks* true (the text 'false', a non-empty string) switches it on")
+    ctx.floor("C02.k identifier-folding stages", n_fold, 1)
+
+
 RULES = [
+    ("C02.k", rule_fold_ignores_session, ("quick", "thorough")),
     ("C02.j", rule_bookkeeping_names_verbatim, ("quick", "thorough")),
     ("C02.i", rule_own_text_parsed, ("quick", "thorough")),
     ("C02.h", rule_names_in_literals, ("quick", "thorough")),
